@@ -2298,7 +2298,7 @@ func (c *Checker) checkMethodDefinition(node *ast.MethodDefinitionNode, method *
 	c.methodCache.Slice = nil
 
 	if c.shouldCompile() && method.IsCompilable() {
-		method.Body = c.compiler.CompileMethodBody(node, value.ToSymbol(method.NamespacedName())).Method()
+		method.SetBody(c.compiler.CompileMethodBody(node, value.ToSymbol(method.NamespacedName())).Method())
 	}
 }
 
